@@ -339,6 +339,9 @@ type FindingSpec struct {
 	NoAdv bool   `json:"no_adv,omitempty"` // finding without advisory
 	NoID  bool   `json:"no_id,omitempty"`  // advisory without ID
 	Extra string `json:"extra,omitempty"`
+	// PreTag: the detector hands the finding over with Detectors already filled in with this
+	// name (a stale tag, e.g. of an object it reuses); the result must carry its own name only.
+	PreTag string `json:"pre_tag,omitempty"`
 }
 
 // DetSpec defines a harness detector.
@@ -387,6 +390,9 @@ func (d *simDetector) Scan(ctx context.Context, root *scalibrfs.ScanRoot, px *pa
 	var fs []*detector.Finding
 	for _, f := range d.spec.Findings {
 		fd := &detector.Finding{Extra: f.Extra}
+		if f.PreTag != "" {
+			fd.Detectors = []string{f.PreTag}
+		}
 		if !f.NoAdv {
 			adv := advisoryVariant(f.Ref, f.Body)
 			if f.NoID {
